@@ -667,6 +667,39 @@ register('C12', [l2_suite('changes', native=False, name='l2-changes')], [])
 register('C11', [l2_suite('changes', native=False, name='l2-changes'), l1_suite(['rows', 'plain'])], [])
 register('C16', [l2_suite('multi', native=False, extra_monitor=c02_monitor, name='l2-multi'), l0_suite(['nodecodec']), l1_suite(['rows'])], [])
 register('C14', [l1_suite(['rows', 'plain', 'cb'], name='l1f', quick=250)], [])
+# ---------------------------------------------------------------- C18 (node encryption)
+def c18_monitor(ctx, res, fn, case, impl, model, spec):
+    t = case.split()
+    if fn != 'crypto':
+        return
+    def fail(what, shape=None):
+        m = dict(suite=res.name, case=case[:1200], impl=' '.join(impl)[:600], what=what)
+        kid = known_match(ctx, shape) if shape else None
+        if kid:
+            m['finding'] = kid; res.known_hits.append(m)
+        else:
+            res.property_failures.append(m)
+    if t[2] == 'enc':
+        if 'NONDET' in impl: fail('equal plaintext and key gave different ciphertexts (no deduplication)')
+        if 'PLAINTEXT' in impl: fail('the plaintext appears in the stored bytes')
+        if impl[:1] != ['ok']: fail('encrypt failed')
+        return
+    kind, msg = t[3], t[4]
+    if kind == 'RT':
+        if impl != ['ok', msg]: fail('decrypt(encrypt(m)) is not m')
+    elif kind in ('TAMPER', 'TRUNC', 'WRONGKEY'):
+        if impl != ['err']:
+            fail({'TAMPER': 'a modified ciphertext was accepted', 'TRUNC': 'a truncated ciphertext was accepted',
+                  'WRONGKEY': 'a ciphertext was accepted under a different key'}[kind])
+    elif kind == 'LEGACY':
+        if impl != ['ok', msg]:
+            n = (len(msg) - 1) // 2
+            fail(f'a box written by the legacy format ({n} bytes) is not read back: {impl[0]}',
+                 shape='legacy_box_longer_than_32_bytes' if n > 32 and impl[:1] == ['ok'] else None)
+
+register('C18', [l0_suite(['crypto'], monitor=c18_monitor, quick=1500, thorough=40000)],
+         ['blake2b, NaCl secretbox and the legacy open are supplied to the model as tables computed by the harness from golang.org/x/crypto and the verif hooks'])
+
 # ---------------------------------------------------------------- L1 scheduled concurrency (C03)
 def parse_sched_case(case):
     t = case.split()
